@@ -20,6 +20,8 @@ type SOp struct {
 	New   []string
 	FI    int
 	Vals  []string
+	// Listed (rms): pass the live listing (GetPolicy) instead of a copy of Rules
+	Listed bool
 }
 
 func (o SOp) Line() string {
@@ -75,6 +77,7 @@ func storeState(e *casbin.Enforcer, sec, ptype string) string {
 // execStore applies the op through the Enforcer's public API and returns the observation.
 func execStore(e *casbin.Enforcer, sec, ptype string, o SOp) (obs string) {
 	mut := true
+	defer checkStoreHanded(o.Line())
 	defer func() {
 		if r := recover(); r != nil {
 			obs = "panic"
@@ -89,44 +92,57 @@ func execStore(e *casbin.Enforcer, sec, ptype string, o SOp) (obs string) {
 	switch o.Kind {
 	case "add":
 		if p {
-			ok, err = e.AddNamedPolicy(ptype, append([]string(nil), o.Rule...))
+			buf := append([]string(nil), o.Rule...)
+			ok, err = e.AddNamedPolicy(ptype, buf)
+			for i := range buf { // the caller refills its buffer: AddNamedPolicy has copied the rule
+				buf[i] = "\x00overwritten-by-the-caller"
+			}
 		} else {
-			ok, err = e.AddNamedGroupingPolicy(ptype, append([]string(nil), o.Rule...))
+			ok, err = e.AddNamedGroupingPolicy(ptype, storeHand(o, [][]string{o.Rule})[0])
 		}
 	case "adds":
 		switch {
 		case p && !o.Ex:
-			ok, err = e.AddNamedPolicies(ptype, cloneRules(o.Rules))
+			ok, err = e.AddNamedPolicies(ptype, storeHand(o, o.Rules))
 		case p && o.Ex:
-			ok, err = e.AddNamedPoliciesEx(ptype, cloneRules(o.Rules))
+			ok, err = e.AddNamedPoliciesEx(ptype, storeHand(o, o.Rules))
 		case !p && !o.Ex:
-			ok, err = e.AddNamedGroupingPolicies(ptype, cloneRules(o.Rules))
+			ok, err = e.AddNamedGroupingPolicies(ptype, storeHand(o, o.Rules))
 		default:
-			ok, err = e.AddNamedGroupingPoliciesEx(ptype, cloneRules(o.Rules))
+			ok, err = e.AddNamedGroupingPoliciesEx(ptype, storeHand(o, o.Rules))
 		}
 	case "rm":
 		if p {
-			ok, err = e.RemoveNamedPolicy(ptype, append([]string(nil), o.Rule...))
+			ok, err = e.RemoveNamedPolicy(ptype, storeHand(o, [][]string{o.Rule})[0])
 		} else {
-			ok, err = e.RemoveNamedGroupingPolicy(ptype, append([]string(nil), o.Rule...))
+			ok, err = e.RemoveNamedGroupingPolicy(ptype, storeHand(o, [][]string{o.Rule})[0])
 		}
 	case "rms":
-		if p {
-			ok, err = e.RemoveNamedPolicies(ptype, cloneRules(o.Rules))
+		if o.Listed {
+			// the listing handed straight back: RemovePolicies(GetPolicy()) — o.Rules holds what was listed
+			if p {
+				live, _ := e.GetNamedPolicy(ptype)
+				ok, err = e.RemoveNamedPolicies(ptype, live)
+			} else {
+				live, _ := e.GetNamedGroupingPolicy(ptype)
+				ok, err = e.RemoveNamedGroupingPolicies(ptype, live)
+			}
+		} else if p {
+			ok, err = e.RemoveNamedPolicies(ptype, storeHand(o, o.Rules))
 		} else {
-			ok, err = e.RemoveNamedGroupingPolicies(ptype, cloneRules(o.Rules))
+			ok, err = e.RemoveNamedGroupingPolicies(ptype, storeHand(o, o.Rules))
 		}
 	case "upd":
 		if p {
-			ok, err = e.UpdateNamedPolicy(ptype, append([]string(nil), o.Rule...), append([]string(nil), o.New...))
+			ok, err = e.UpdateNamedPolicy(ptype, storeHand(o, [][]string{o.Rule})[0], storeHand(o, [][]string{o.New})[0])
 		} else {
-			ok, err = e.UpdateNamedGroupingPolicy(ptype, append([]string(nil), o.Rule...), append([]string(nil), o.New...))
+			ok, err = e.UpdateNamedGroupingPolicy(ptype, storeHand(o, [][]string{o.Rule})[0], storeHand(o, [][]string{o.New})[0])
 		}
 	case "upds":
 		if p {
-			ok, err = e.UpdateNamedPolicies(ptype, cloneRules(o.Rules), cloneRules(o.News))
+			ok, err = e.UpdateNamedPolicies(ptype, storeHand(o, o.Rules), storeHand(o, o.News))
 		} else {
-			ok, err = e.UpdateNamedGroupingPolicies(ptype, cloneRules(o.Rules), cloneRules(o.News))
+			ok, err = e.UpdateNamedGroupingPolicies(ptype, storeHand(o, o.Rules), storeHand(o, o.News))
 		}
 	case "rmf":
 		if p {
@@ -137,9 +153,9 @@ func execStore(e *casbin.Enforcer, sec, ptype string, o SOp) (obs string) {
 	case "has":
 		mut = false
 		if p {
-			ok, err = e.HasNamedPolicy(ptype, append([]string(nil), o.Rule...))
+			ok, err = e.HasNamedPolicy(ptype, storeHand(o, [][]string{o.Rule})[0])
 		} else {
-			ok, err = e.HasNamedGroupingPolicy(ptype, append([]string(nil), o.Rule...))
+			ok, err = e.HasNamedGroupingPolicy(ptype, storeHand(o, [][]string{o.Rule})[0])
 		}
 		if err != nil {
 			return "err"
@@ -165,4 +181,28 @@ func execStore(e *casbin.Enforcer, sec, ptype string, o SOp) (obs string) {
 		res = "err"
 	}
 	return res + " " + storeState(e, sec, ptype)
+}
+
+// storeHanded: the rule lists handed to the library by execStore (copies of the operation's pristine lists); after
+// every call all of them are compared with their originals (see Sess.Exec)
+var storeHanded []*handedRules
+
+func storeHand(o SOp, rs [][]string) [][]string {
+	cl := cloneRules(rs)
+	if len(storeHanded) >= 300 {
+		storeHanded = storeHanded[150:]
+	}
+	storeHanded = append(storeHanded, &handedRules{op: o.Line(), orig: cloneRules(rs), clone: cl})
+	return cl
+}
+
+func checkStoreHanded(after string) {
+	for _, h := range storeHanded {
+		if !h.reported && !sameRules(h.clone, h.orig) {
+			h.reported = true
+			if len(argMutations) < 5 {
+				argMutations = append(argMutations, fmt.Sprintf("handed in by %s: %v, found after %s: %v", h.op, h.orig, after, h.clone))
+			}
+		}
+	}
 }
